@@ -19,9 +19,10 @@ package config
 
 //@ -- ---------------------------------------------------------------- C27: resolution by source priority
 //@ -- which sources are local to this node (the statement's "local-only parameters accepted only from local sources")
+//@ spec func srcIsLocal(s Source) bool = s == Default || s == ConfigFile || s == EnvironmentVariable || s == InternalOverride
 //@ func (Source).Local
 //@   property C27
-//@   ensures res == (source == Default || source == ConfigFile || source == EnvironmentVariable || source == InternalOverride)
+//@   ensures res == srcIsLocal(source)
 //@   assigns nothing
 
 //@ -- Shadowing: a value from a lower-priority source than the one that already supplied the parameter has no
@@ -32,4 +33,4 @@ package config
 //@   option safety off
 //@   ghost at call logrus.Errorf: check source >= currentSource
 //@   ghost at call logrus.Entry).Error: check source >= currentSource
-//@   ghost at call (reflect.Value).Set: check source >= currentSource
+//@   ghost at call (reflect.Value).Set: check source >= currentSource ; check !(metadata.Local && !srcIsLocal(source))
